@@ -1551,4 +1551,134 @@ theorem safe_of_noExpire (cfg : Cfg) : ∀ (ops : List Op) (live : List Bytes) (
           | none => exact this
           | some k0 => exact List.mem_cons_of_mem _ this
 
+/-! ### the executable hypotheses and the oracle -/
+
+theorem cfgOK_wf (cfg : Cfg) (h : cfgOK cfg = true) : CfgWF cfg := by
+  simp only [cfgOK, Bool.and_eq_true, decide_eq_true_eq, List.all_eq_true, Bool.or_eq_true,
+    Bool.not_eq_true'] at h
+  obtain ⟨⟨⟨h1, h2⟩, h3⟩, h4⟩ := h
+  refine ⟨h1, h2, h3, ?_⟩
+  intro r hr he
+  rcases h4 r hr with h | h
+  · rw [he] at h; cases h
+  · simp only [distrOK, Bool.and_eq_true, List.all_eq_true, decide_eq_true_eq] at h
+    exact h.1.1
+
+theorem cfgOK_shares (cfg : Cfg) (h : cfgOK cfg = true) (r : Rule) (hr : r ∈ cfg.rules)
+    (he : r.distr.isEnabled = true) : (∀ x ∈ r.distr.limits, 0 ≤ x) ∧ 0 ≤ r.distr.defLimit := by
+  simp only [cfgOK, Bool.and_eq_true, decide_eq_true_eq, List.all_eq_true, Bool.or_eq_true,
+    Bool.not_eq_true'] at h
+  rcases h.2 r hr with h4 | h4
+  · rw [he] at h4; cases h4
+  · simp only [distrOK, Bool.and_eq_true, List.all_eq_true, decide_eq_true_eq] at h4
+    exact ⟨h4.1.2, h4.2⟩
+
+theorem shareOf_nonneg (d : Distr) (h1 : ∀ x ∈ d.limits, 0 ≤ x) (h2 : 0 ≤ d.defLimit) (κ : Nat) :
+    0 ≤ shareOf d κ := by
+  cases κ with
+  | zero => exact h2
+  | succ j =>
+    simp only [shareOf]
+    split
+    · rename_i s hs
+      exact h1 s (List.mem_of_getElem? hs)
+    · exact Int.le_refl _
+
+theorem sumF_zero (n : Nat) : sumF n (fun _ => 0) = 0 := by
+  induction n with
+  | zero => rfl
+  | succ n ih => simp [sumF, ih]
+
+theorem reps_subset (cfg : Cfg) : ∀ (obs : List (Ev × Bool)) (seen : List (Option Bytes × Int)),
+    ∀ x ∈ reps cfg obs seen, x ∈ obs := by
+  intro obs
+  induction obs with
+  | nil => intro seen x hx; simp [reps] at hx
+  | cons a t ih =>
+    intro seen x hx
+    unfold reps at hx
+    split at hx
+    · exact List.mem_cons_of_mem _ (ih _ x hx)
+    · simp only [List.mem_cons] at hx ⊢
+      rcases hx with h | h
+      · exact Or.inl h
+      · exact Or.inr (ih _ x h)
+
+/-- the three safety facts about the answers of the abstract machine started empty -/
+theorem abs_pairOK (cfg : Cfg) (hc : cfgOK cfg = true) (es : List Ev) (hsz : sizesOK es = true)
+    (x : Ev × Bool) : pairOK cfg (absObs cfg Cnt.zero es) x = true := by
+  have hw := cfgOK_wf cfg hc
+  unfold pairOK
+  cases hro : ruleOf cfg x.1 with
+  | none => rfl
+  | some ir =>
+    have hrule := ruleOf_some cfg x.1 ir hro
+    obtain ⟨_, hmem⟩ := rule_idx_lt cfg hw ir.1 ir.2 hrule
+    simp only
+    split
+    · rfl
+    · rename_i hneg
+      have h0 : 0 ≤ ir.2.limit := by omega
+      cases he : ir.2.distr.isEnabled with
+      | false =>
+        simp only [Bool.false_eq_true, ↓reduceIte, decide_eq_true_eq]
+        have := abs_passed_le cfg hw ir.1 ir.2 (throttleKey x.1) (attr cfg x.1) hrule h0 he es Cnt.zero 0 hsz
+          (Int.le_refl _) h0
+        omega
+      | true =>
+        obtain ⟨hsh1, hsh2⟩ := cfgOK_shares cfg hc ir.2 hmem he
+        simp only [↓reduceIte, Bool.and_eq_true, decide_eq_true_eq]
+        refine ⟨?_, ?_⟩
+        · unfold allIdx
+          rw [List.all_eq_true]
+          intro j _
+          split
+          · rename_i s hs
+            have := abs_listed_le cfg hw ir.1 ir.2 (throttleKey x.1) (attr cfg x.1) hrule h0 he j s hs es
+              Cnt.zero 0 hsz (Int.le_refl _) (hsh1 s (List.mem_of_getElem? hs))
+            simp only [decide_eq_true_eq]; omega
+          · rfl
+        · have := abs_total_le cfg hw ir.1 ir.2 (throttleKey x.1) (attr cfg x.1) hrule h0 he es Cnt.zero
+            (fun _ => 0) hsz (fun κ _ => ⟨Int.le_refl _, shareOf_nonneg _ hsh1 hsh2 κ⟩)
+          rw [sumF_zero, sumF_shares] at this
+          omega
+
+theorem abs_verdict (cfg : Cfg) (hc : cfgOK cfg = true) (es : List Ev)
+    (hn : nowOK cfg ((cfg.count : Int) * cfg.interval) es = true) (hsz : sizesOK es = true) (b : Bool) :
+    verdict cfg (absObs cfg Cnt.zero es) b = Verdict.ok := by
+  have hw := cfgOK_wf cfg hc
+  have hmap : ∀ (c : Cnt) (l : List Ev), (absObs cfg c l).map (·.1) = l := by
+    intro c l
+    induction l generalizing c with
+    | nil => rfl
+    | cons a t ih => simp only [absObs, List.map_cons, ih]
+  unfold verdict
+  rw [hmap, hc, hn, hsz]
+  have hsafe : safeHolds cfg (absObs cfg Cnt.zero es) = true := by
+    unfold safeHolds
+    rw [Bool.and_eq_true, List.all_eq_true, List.all_eq_true]
+    exact ⟨abs_mustPass cfg es Cnt.zero, fun x _ => abs_pairOK cfg hc es hsz x⟩
+  have hrej : rejectOK cfg [] (absObs cfg Cnt.zero es) = true :=
+    abs_rejectOK cfg hw es Cnt.zero [] (fun _ _ _ _ _ _ _ => rfl)
+  simp [hsafe, hrej]
+
+theorem absResults_no_panic (cfg : Cfg) : ∀ (ops : List Op) (c : Cnt) (p : Panic),
+    Res.panic p ∉ absResults cfg c ops := by
+  intro ops
+  induction ops with
+  | nil => intro c p h; simp [absResults] at h
+  | cons op ops ih =>
+    intro c p h
+    cases op with
+    | expire k =>
+      simp only [absResults, List.mem_cons] at h
+      rcases h with h | h
+      · cases h
+      · exact ih c p h
+    | ev e =>
+      simp only [absResults, List.mem_cons] at h
+      rcases h with h | h
+      · split at h <;> cases h
+      · exact ih _ p h
+
 end FileD.ThrottleLemmas
